@@ -20,7 +20,7 @@ pub mod p_c01;
 pub mod p_c02;
 #[cfg(all(kani, feature = "c03"))]
 pub mod p_c03;
-#[cfg(all(kani, any(feature = "c04", feature = "c05")))]
+#[cfg(all(kani, any(feature = "c04", feature = "c05", feature = "c12")))]
 pub mod p_c04;
 #[cfg(all(kani, feature = "c06"))]
 pub mod p_c06;
